@@ -409,6 +409,9 @@ fn run_check_case(c: &CheckCase) -> Result<(bool, bool), Violation> {
         let blk = &mut bytes[rt_e as usize..(rt_e + cs) as usize];
         rc_set(blk, h.refcount_order, cl % rbe, 1);
         injected = true;
+        if std::env::var("VERIF_TRACE").is_ok() {
+            eprintln!("leak injected at host cluster {cl} (covered {}, file clusters {}, refs {:?})", rep.covered, bytes.len() as u64 / cs, rep.refs.keys().collect::<Vec<_>>());
+        }
         let rep2 = checker::check(&bytes, Mode::Strict);
         if rep2.leaked.is_empty() {
             return Err(Violation::new(Rule::Setup, "harness: injected leak not seen by the independent checker"));
